@@ -15,10 +15,13 @@ Open Scope N_scope.
 
 (** * The scanner on one token *)
 
+Lemma frev_rev (l : bytes) : frev l = rev l.
+Proof. unfold frev. symmetry. apply rev_alt. Qed.
+
 (* a complete marker at the front: one segment ends *)
 Lemma scan_marker (rr cur : bytes) :
   split_bytes_aux (marker_bytes ++ rr) 0 cur = rev cur :: split_bytes_aux rr 0 [].
-Proof. reflexivity. Qed.
+Proof. rewrite <- frev_rev. reflexivity. Qed.
 
 Lemma starts_with_marker_head (b : N) (s : bytes) :
   (27 =? b) = false -> starts_with marker_bytes (b :: s) = false.
@@ -134,7 +137,7 @@ Lemma scan_msg (m : msg) (cur : bytes) :
   split_bytes_aux (render m) 0 cur = prepend cur (map render (split_marker m)).
 Proof.
   revert cur. induction m as [|t r IH]; intros cur Hwf Hadj.
-  - cbn. rewrite app_nil_r. reflexivity.
+  - cbn [render flat_map split_bytes_aux split_marker map prepend]. rewrite frev_rev, app_nil_r. reflexivity.
   - cbn [forallb] in Hwf. apply andb_true_iff in Hwf as [Ht Hr].
     cbn [adjacent_ok] in Hadj. apply andb_true_iff in Hadj as [Ha Hadj].
     destruct (split_marker_nonempty' r) as (s & ss & Hs).
@@ -195,8 +198,9 @@ Qed.
 
 Theorem message_wf (e : err) : err_wf e = true -> msg_wf (message e) = true.
 Proof.
-  induction e as [c|t|k m|t e IH|t e IH|o e IH]; cbn [err_wf message]; intros H.
+  induction e as [c|t|c t|k m|t e IH|t e IH|o e IH|t0 ps]; cbn [err_wf message]; intros H.
   - reflexivity.
+  - exact H.
   - exact H.
   - unfold msg_wf in *. cbn [forallb adjacent_ok tok_wf]. exact H.
   - apply andb_true_iff in H as [Ht He]. apply msg_wf_wrap; auto.
@@ -205,6 +209,8 @@ Proof.
     unfold msg_wf in *. apply andb_true_iff in IH as [H1 H2].
     cbn [forallb adjacent_ok tok_wf sep no_occurrence starts_with marker_bytes].
     rewrite Ho, H1, H2. destruct (message e); reflexivity.
+  - (* a layer with several operands has no separators of its own: well-formedness of the whole text is demanded *)
+    apply andb_true_iff in H as [Ht _]. exact Ht.
 Qed.
 
 (** ExtractObject's byte-level search on the real message finds exactly what
